@@ -10,6 +10,7 @@ From KV.gen Require Locks.
 From KV Require Import SSTable Xxhash Block SSTFile.
 From KV Require Import Iter.
 From KV Require Import Compaction.
+From KV Require Import Txn.
 Extraction Language OCaml.
 (* Coq's String module (identifiers of the C07 lock table) must not shadow OCaml's: it is emitted as String0 *)
 Extraction Blacklist String.
@@ -39,4 +40,5 @@ Separate Extraction
   Compaction.cinit Compaction.cput Compaction.cdel Compaction.cbatch Compaction.ccommit Compaction.cflush
   Compaction.cfull Compaction.ctrigger Compaction.crange Compaction.creopen Compaction.cget Compaction.select
   Compaction.select_range Compaction.dsort Compaction.nfresh
+  Txn.ser_check Txn.ser_why
 .
